@@ -28,7 +28,8 @@ from checks.worlda import (WorldA, draw_knobs, draw_sched, NODE_HOST, NODE_REALM
 APP_ID = 16777251
 STATES = ["server_closed", "client_wicea", "open", "open", "open_traffic", "closing"]
 MUTATIONS = ["truncate", "msg_len", "avp_len", "avp_len", "wrong_width", "bad_enum", "bad_family", "version",
-             "non_utf8", "misaddressed", "garbage", "flip", "huge_len", "dup_avp", "zero_avp", "empty", "vflag"]
+             "non_utf8", "misaddressed", "garbage", "flip", "huge_len", "dup_avp", "zero_avp", "empty", "vflag",
+             "deep_nest"]
 BASES = ["cer", "cea", "dwr", "dwa", "dpr", "dpa", "app_req", "app_ans", "app_req_big"]
 
 
@@ -71,8 +72,8 @@ def avp_offsets(raw):
     return out
 
 
-def mutate(spec, n):
-    """spec -> bytes (deterministic)."""
+def mutate(spec, n, live=False):
+    """spec -> bytes (deterministic).  live=True: the variant injected into the live node (see deep_nest)."""
     r = random.Random(spec["seed"])
     m = base_message(spec["base"], n)
     raw = bytearray(C.enc_msg(m))
@@ -99,6 +100,21 @@ def mutate(spec, n):
                       len(raw), r.randrange(0, 1 << 24), r.randrange(0, 16)])
         raw[off + 5:off + 8] = max(0, v).to_bytes(3, "big")
         return bytes(raw)
+    if mut == "deep_nest":
+        # a Grouped AVP nested in itself many levels deep
+        depth = r.choice([20, 80, 200, 400, 1200])
+        if live:
+            # CPython 3.12.1 crashes (segfault, not RecursionError) when a RecursionError unwinds through
+            # a traced thread a second time; the live node therefore gets a deep but legal nesting and
+            # only the decoder sub-check sees the recursion-limit depths
+            depth = min(depth, 120)
+        code = r.choice([C.VENDOR_SPECIFIC_APP_ID, 279, 284, 297])      # grouped: VSAI, Failed-AVP, Proxy-Info, Exp-Result
+        inner = C.enc_avp((C.VENDOR_ID, C.AF_M, None, C.u32(10415)))
+        for _ in range(depth):
+            inner = C.enc_avp((code, C.AF_M, None, inner))
+        body = b"".join(C.enc_avp(a) for a in m["avps"]) + inner
+        hdr = bytes(raw[:1]) + (20 + len(body)).to_bytes(3, "big") + bytes(raw[4:20])
+        return hdr + body
     if mut == "vflag" and offs:
         # toggle the V bit of an AVP and give it an adversarial length
         off, length = r.choice(offs)
@@ -163,8 +179,8 @@ def step_bound(n):
 class C03(Check):
     prop = "C03"
     quick_runs = 128
-    thorough_runs = 6000
-    run_wall = 200.0
+    thorough_runs = 3000
+    run_wall = 600.0
     rule = ("one run = a live node brought to one of {server awaiting CER, client awaiting CEA, Open idle with a parked "
             "consumer, Open with traffic, Closing}, then <= 6 malformed byte strings (seeded mutations of well-formed "
             "messages, optionally surrounded by valid ones) injected by the peer with seeded segmentation under a seeded "
@@ -249,6 +265,7 @@ class C03(Check):
         violations = []
         st = {"reached": False, "decoder": {"returned": 0, "library_error": 0, "max_steps_per_byte": 0.0}}
         blobs = [mutate(s, i + 1) for i, s in enumerate(scn["strings"])]
+        live_blobs = [mutate(s, i + 1, live=True) for i, s in enumerate(scn["strings"])]
         import bromelia.exceptions as E
         libtypes = tuple(c for c in vars(E).values() if isinstance(c, type) and issubclass(c, BaseException))
         ctxs = "%s/%s" % (scn["mode"].lower(), state)
@@ -278,7 +295,7 @@ class C03(Check):
                 import traceback
                 tb = traceback.extract_tb(e.__traceback__)[-1]
                 viol("decoding either returns messages or raises one of the library's own error types",
-                     "decoder/leak/%s@%s" % (type(e).__name__, tb.name),
+                     "decoder/leak/%s" % (type(e).__name__,),
                      {"len": len(blob), "error": "%s: %s" % (type(e).__name__, str(e)[:160]),
                       "where": "%s:%d" % (tb.filename.split("/")[-1], tb.lineno), "hex": blob.hex()[:200],
                       "mutation": scn["strings"][i]})
@@ -349,7 +366,7 @@ class C03(Check):
             st["reached"] = True
             st["state_before"] = w.state()
             # ---- inject ---------------------------------------------------------
-            for i, (s, blob) in enumerate(zip(scn["strings"], blobs)):
+            for i, (s, blob) in enumerate(zip(scn["strings"], live_blobs)):
                 if s["gap"]:
                     sim.sleep(s["gap"])
                 if s["pre_valid"]:
